@@ -872,7 +872,7 @@ def main():
         write_evidence(prop, tier, seed, [], time.time() - t0, cg_s, 0, [], [], [err])
         return 2
     print(f"[{prop}] codegen {cg_s:.0f}s; running CBMC", flush=True)
-    # memory-aware scheduling: at most `jobs` at once and at most 44 GB of declared caps
+    # memory-aware scheduling: at most `jobs` at once and at most 52 GB of declared caps
     jobs = a.jobs or 6
     results = []
     lock = threading.Condition()
@@ -881,7 +881,7 @@ def main():
     def task(item):
         pretty, fn, spec = item
         with lock:
-            while used["mem"] + spec.mem > 44 and used["mem"] > 0:
+            while used["mem"] + spec.mem > 52 and used["mem"] > 0:
                 lock.wait()
             used["mem"] += spec.mem
         try:
